@@ -3,10 +3,22 @@ import fol
 import streams
 
 
-def worlds_of(prog):
-    w = {p["id"]: fol.WORLDS[p.get("world", "open")] for p in prog["kb"]["preds"]}
-    for n in prog["kb"]["nodes"]:
-        w[n["id"]] = fol.WORLDS[n.get("world", "open")]
+def worlds_of(rec):
+    """world default of every node, as the implementation holds it (read back into the `fnode` lines; this covers the
+    inner quantifiers a multi-variable quantifier is expanded into, which inherit the outer world). `fworld` lines
+    change it during the program: those nodes are dropped (a new row of theirs is then only accepted if unknown)."""
+    from common import parse_q
+    w = {}
+    changed = set()
+    for line in rec["lines"]:
+        if line.startswith("fnode "):
+            t = line.split()
+            wl = [x for x in t if x.startswith("world=")][0][6:].split(",")
+            w[int(t[1])] = (parse_q(wl[0]), parse_q(wl[1]))
+        elif line.startswith("fworld "):
+            changed.add(int(line.split()[1]))
+    for i in changed:
+        w.pop(i, None)
     return w
 
 
